@@ -51,7 +51,10 @@ func GenProps(r *Rand, id string) string {
 }
 
 func csvField(r *Rand, sep string) string {
-	switch r.Intn(6) {
+	switch r.Intn(7) {
+	case 6:
+		// cells that look like the beginning of YAML
+		return Pick(r, []string{"[", "{", "*x", "&a", "!t", "- x", "a: b", "|", "[1", "{a: 1", "%", "@", "`"})
 	case 0:
 		return strconv.Itoa(r.Range(0, 99))
 	case 1:
